@@ -333,6 +333,52 @@ def weave_item(hdr, subs, stats):
             log.append({"rule": "R12 receiver: method of `impl Trait for &mut Deserializer` checked as inherent method",
                         "before": "self", "after": d["text"]})
     for d in subs:
+        if d["op"] == "dropstmt":
+            tk = tokenize(ot.s)
+            a, b = _tok_find(tk, d["anchor"], d["nth"], what)
+            # statement start
+            k, dep = a - 1, 0
+            while k >= 0:
+                tx = tk[k].text
+                if tk[k].kind == "punct":
+                    if tx in (")", "]"):
+                        dep += 1
+                    elif tx in ("(", "["):
+                        dep = max(0, dep - 1)
+                    elif tx in ("{", ";", "}") and dep == 0:
+                        break
+                k -= 1
+            first = k + 1
+            # statement end: `;` at depth 0, or the end of a trailing block (if/else chains)
+            dep, j, endtok = 0, a, None
+            while j < len(tk):
+                tx = tk[j].text
+                if tk[j].kind == "punct":
+                    if tx in "([":
+                        dep += 1
+                    elif tx in ")]":
+                        dep -= 1
+                    elif tx == ";" and dep == 0:
+                        endtok = j
+                        break
+                    elif tx == "{" and dep == 0:
+                        c = match_close(tk, j)
+                        while c + 1 < len(tk) and tk[c + 1].text == "else":
+                            kk = c + 1
+                            while tk[kk].text != "{":
+                                kk += 1
+                            c = match_close(tk, kk)
+                        endtok = c
+                        if c + 1 < len(tk) and tk[c + 1].text == ";":
+                            endtok = c + 1
+                        break
+                j += 1
+            if endtok is None:
+                raise WeaveError(f"{what}: cannot delimit the statement containing `{d['anchor']}`")
+            dropped = ot.s[tk[first].start:tk[endtok].end]
+            ot.replace(tk[first].start, tk[endtok].end, "")
+            log.append({"rule": "DROP statement (not verified)", "before": " ".join(dropped.split())[:200], "after": ""})
+    for d in subs:
         if d["op"] == "replaceblock":
             tk = tokenize(ot.s)
             a, b = _tok_find(tk, d["anchor"], d["nth"], what)
@@ -759,6 +805,11 @@ def parse_template(path, seen=None):
                     elif op in ("loopstart", "loopend", "beforeloop", "afterloop"):
                         cur = {"op": op, "n": int(rest), "text": ""}
                         subs.append(cur)
+                    elif op == "dropstmt":
+                        mm = re.match(r"(?:nth\s+(\d+)\s+)?`(.*)`\s*$", rest)
+                        if not mm:
+                            raise WeaveError(f"{path}:{i+1}: bad dropstmt directive")
+                        subs.append({"op": "dropstmt", "anchor": mm.group(2), "nth": int(mm.group(1) or 1)})
                     elif op == "replaceblock":
                         mm = re.match(r"(?:nth\s+(\d+)\s+)?`(.*)`\s*$", rest)
                         if not mm:
